@@ -116,13 +116,26 @@ def _check_fig(c: rr.Cmp, key, token, exp, F, kind, i, exact=False, **ctx):
         c.bad(key, got=token, want=w, **ctx)
 
 
+def _text(c, key, fn):
+    """the text of a report, or None (+ a recorded failure) when producing it raises"""
+    c.n += 1
+    try:
+        return fn()
+    except Exception as e:  # noqa
+        c.bad(f'{key}:raises {type(e).__name__}', message=str(e)[:200])
+        return None
+
+
 def compare_reports(c: rr.Cmp, res, which: str):
     """the four reports of `res` against ReportsOf(raw) of the specification"""
     exp, R = c.exp, c.exp.rec['reports']
     cells = {(r, col): (F, kind, i) for r, col, F, kind, i, _ in exp.rec['tables']['est_robust']['cells']}
-    for kind_, text, parser in (('html', res.get_html(), parse_html), ('latex', res.get_latex(), parse_latex)):
-        parsed = parser(text)
+    for kind_, fn, parser in (('html', res.get_html, parse_html), ('latex', res.get_latex, parse_latex)):
         key = f'{which} {kind_} report'
+        text = _text(c, key, fn)
+        if text is None:
+            continue
+        parsed = parser(text)
         c.n += 1
         if parsed is None:
             c.bad(f'{key}:table of estimates not found')
@@ -136,10 +149,13 @@ def compare_reports(c: rr.Cmp, res, which: str):
                     F, kd, i = cells[(lab, col)]
                     _check_fig(c, f'{key}:{col}', tokv, exp, F, kd, i, parameter=lab)
     # F12
-    rows = parse_f12(res.get_f12())
     key = f'{which} F12 report'
+    text = _text(c, key, res.get_f12)
+    rows = parse_f12(text) if text is not None else None
     c.n += 1
-    if rows is None:
+    if text is None:
+        pass
+    elif rows is None:
         c.bad(f'{key}:coefficient lines not found')
     else:
         lm = R['f12']['labelmax']
@@ -149,8 +165,11 @@ def compare_reports(c: rr.Cmp, res, which: str):
             for tokv, (F, kd, i) in zip(toks, r['figs']):
                 _check_fig(c, f'{key}:{kd}', tokv, exp, F, kd, i, exact=True, parameter=lab)
     # printed form
-    rows = parse_str(str(res))
     key = f'{which} printed form'
+    text = _text(c, key, lambda: str(res))
+    if text is None:
+        return
+    rows = parse_str(text)
     c.same(f'{key}:parameters listed', [lab for lab, _ in rows], [r['label'] for r in R['str']['rows']])
     for (lab, toks), r in zip(rows, R['str']['rows']):
         c.same(f'{key}:number of figures', len(toks), len(r['figs']), parameter=lab)
@@ -188,9 +207,8 @@ def replay(item: dict) -> dict:
             with open(name, 'wb') as f:
                 pickle.dump(stale.data, f)
             shas[name] = _sha(name)
-        res.write_html()
-        res.write_latex()
-        res.write_f12()
+        for wname, w in (('write_html', res.write_html), ('write_latex', res.write_latex), ('write_f12', res.write_f12)):
+            _text(c, wname, w)
         name = res.write_pickle()
         c.same('write_pickle:returned name', name, rec['io']['wrote'])
         c.same('write_pickle:files', sorted(x for x in os.listdir('.') if x.endswith('.pickle')), sorted(rec['io']['files']))
@@ -223,24 +241,80 @@ def replay(item: dict) -> dict:
                 c.n += 1
                 if not ((rr.is_blank(a[0]) and rr.is_blank(b[0])) or a[0] == b[0]) or a[1] != b[1]:
                     c.bad(f'round trip:get_general_statistics:{k}', got=repr(b), want=repr(a))
-        c.same('round trip:short_summary', loaded.short_summary(), res.short_summary())
-        c.same('round trip:printed form', str(loaded), str(res))
-        c.same('round trip:print_general_statistics', loaded.print_general_statistics(), res.print_general_statistics())
-        c.same('round trip:html', _norm(loaded.get_html()), _norm(res.get_html()))
-        c.same('round trip:html (all statistics)', _norm(loaded.get_html(only_robust=False)), _norm(res.get_html(only_robust=False)))
-        c.same('round trip:latex', _norm(loaded.get_latex()), _norm(res.get_latex()))
-        c.same('round trip:F12', _norm(loaded.get_f12()), _norm(res.get_f12()))
+        texts = (('short_summary', lambda r: r.short_summary()), ('printed form', str),
+                 ('print_general_statistics', lambda r: r.print_general_statistics()),
+                 ('html', lambda r: r.get_html()), ('html (all statistics)', lambda r: r.get_html(only_robust=False)),
+                 ('latex', lambda r: r.get_latex()), ('F12', lambda r: r.get_f12()))
+        produced = {}
+        for label, fn in texts:
+            a = _text(c, f'saved object: {label}', lambda: fn(res))
+            b = _text(c, f'loaded object: {label}', lambda: fn(loaded))
+            if a is not None and b is not None:
+                c.same(f'round trip:{label}', _norm(b), _norm(a))
+                produced[label] = a
         c.same('round trip:beta values', loaded.get_beta_values(), res.get_beta_values())
-        for attr, text in (('htmlFileName', res.get_html()), ('latexFileName', res.get_latex()), ('F12FileName', res.get_f12())):
-            with open(getattr(res.data, attr), encoding='utf-8') as f:
-                c.same(f'report file on disk:{attr}', _norm(f.read()), _norm(text))
+        for attr, label in (('htmlFileName', 'html'), ('latexFileName', 'latex'), ('F12FileName', 'F12')):
+            fn_ = getattr(res.data, attr)
+            if fn_ is not None and label in produced and os.path.exists(fn_):
+                with open(fn_, encoding='utf-8') as f:
+                    c.same(f'report file on disk:{attr}', _norm(f.read()), _norm(produced[label]))
         # (3) what the reports list
         compare_reports(c, res, 'saved object:')
         compare_reports(c, loaded, 'loaded object:')
         sample = dict(model=raw_build['id'], estimates={n_: float(rr.Fraction(*t)) for n_, t in zip(raw_build['names'], raw_build['theta'])},
                       earlier_pickles=rec['io']['stale'], written=name,
-                      html_rows=parse_html(loaded.get_html())[1], f12_rows=parse_f12(loaded.get_f12()))
+                      html_rows=parse_html(produced['html'])[1] if 'html' in produced else None,
+                      f12_rows=parse_f12(produced['F12']) if 'F12' in produced else None)
         return dict(n=c.n, skipped=c.skipped, mismatches=c.mismatches, sample=sample)
+    finally:
+        os.chdir(old)
+        shutil.rmtree(work, ignore_errors=True)
+
+
+# ------------------------------------------------------------------ results of REAL estimations
+def real_reports(kind: str) -> dict:
+    """kind = 'estimate' | 'quick_estimate': run the real estimation of a one-parameter logit and check the
+    statement ReportsComplete of the specification on its four reports: one row per estimated parameter,
+    labelled by its name, first figure = the estimate (to the printed precision)."""
+    from . import filesio as fio
+
+    old = os.getcwd()
+    work = tempfile.mkdtemp(prefix='c14-real-', dir=old)
+    shutil.copy(os.path.join(old, 'biogeme.toml'), work)
+    os.chdir(work)
+    mism, n = [], 0
+    try:
+        m = fio.real_model(f'real_{kind}')
+        res = m.estimate() if kind == 'estimate' else m.quick_estimate()
+        want = dict(zip(res.data.betaNames, res.data.betaValues))
+        for label, fn, parser in (('html', res.get_html, parse_html), ('latex', res.get_latex, parse_latex),
+                                  ('F12', res.get_f12, parse_f12), ('printed form', lambda: str(res), parse_str)):
+            n += 1
+            try:
+                text = fn()
+            except Exception as e:  # noqa
+                mism.append(dict(key=f'{kind}: {label}:raises {type(e).__name__}', message=str(e)[:200]))
+                continue
+            parsed = parser(text)
+            if parsed is None:
+                mism.append(dict(key=f'{kind}: {label}:table of estimates not found'))
+                continue
+            rows = parsed[1] if label in ('html', 'latex') else parsed
+            got = {r[0]: r[-1][0] for r in rows}
+            n += 1
+            if sorted(got) != sorted(k[:10] if label == 'F12' else k for k in want):
+                mism.append(dict(key=f'{kind}: {label}:parameters listed', got=sorted(got), want=sorted(want)))
+                continue
+            for name, v in want.items():
+                t = got[name[:10] if label == 'F12' else name]
+                n += 1
+                try:
+                    ok = abs(float(t) - v) <= (1e-11 if label == 'F12' else 6e-3) * max(abs(v), 1e-300)
+                except ValueError:
+                    ok = False
+                if not ok:
+                    mism.append(dict(key=f'{kind}: {label}:value', parameter=name, got=t, want=v))
+        return dict(n=n, mismatches=mism, estimates=want)
     finally:
         os.chdir(old)
         shutil.rmtree(work, ignore_errors=True)
